@@ -22,7 +22,7 @@ INVARIANTS TypeOK Integrity LeftExact Bounded NoStall
 CHECK_DEADLOCK FALSE
 """
 
-WRITER_ACTIONS = ("WBegin", "WSys", "WCtl", "WClose")
+WRITER_ACTIONS = ("WBegin", "WSys", "WSysFile", "WCtl", "WClose")
 POLLER_ACTIONS = ("PWait", "PFLock", "PFSys", "PFCtl", "PRLock", "PRSys", "PRPost", "PRearmLock", "PRearm")
 
 
@@ -82,11 +82,12 @@ def scripts_for(g, c, progs, *, cap, seed, res, focus):
     res.notes.append("%s: %s" % (c["name"], mode))
     rnd = random.Random(seed * 104729 + 7)
     oprog, wprog = progs[c["prog"]]
-    threads = {"o": [{"op": "write", "n": n} for n in oprog]}
+    mkop = lambda n: {"op": "write", "n": n} if n >= 0 else {"op": "sendfile", "n": -n}
+    threads = {"o": [mkop(n) for n in oprog]}
     wnames = ["w1"] if c["writers"] == "W1" else ["w1", "w2"]
     for w in wnames:
         wp = wprog[w] if isinstance(wprog, dict) else wprog
-        threads[w] = [{"op": "write", "n": n} for n in wp]
+        threads[w] = [mkop(n) for n in wp]
     scripts = []
     seen = set()
     for (i0, path) in paths:
@@ -111,7 +112,7 @@ def scripts_for(g, c, progs, *, cap, seed, res, focus):
                 st["m"] = 1
             else:
                 raise Infra("unexpected action label %r" % lab)
-            if name in ("WSys", "WCtl", "PFSys", "PFCtl", "PRSys", "PRearm", "OpenAdd") and not c.get("eager", False) \
+            if name in ("WSys", "WSysFile", "WCtl", "PFSys", "PFCtl", "PRSys", "PRearm", "OpenAdd") and not c.get("eager", False) \
                     and rnd.random() < 0.3:
                 st["l"] = True
             st["x"] = state_x(g.st(dst))
